@@ -29,11 +29,12 @@ Definition content_exhausted (c : content) : M unit :=
   match c with CPrim _ => src_exhausted | CCons c => cons_exhausted c end.
 
 (* Constructed::is_exhausted; Panic = limit().unwrap() *)
-Definition is_exhausted (c : cons) : M bool := fun s =>
+Definition is_exhausted (c : cons) : M bool :=
   match cst c with
-  | Definite => match lim s with Some l => (Ok (l =? 0), s) | None => (Panic, s) end
-  | Indefinite | Unbounded => (Ok false, s)
-  | Done => (Ok true, s)
+  | Definite => li <- get_lim ;;
+                match li with Some l => ret (l =? 0) | None => panic end
+  | Indefinite | Unbounded => ret false
+  | Done => ret true
   end.
 
 Definition with_state (c : cons) (st : cstate) : cons := mkCons st (cmd c).
@@ -69,11 +70,10 @@ Section PNV.
       else
       match l with
       | Definite_ n =>
-          s <- get ;;
-          (match lim s with
+          old <- get_lim ;;
+          (match old with
            | Some li => if li <? n then cerr else ret tt
            | None => ret tt end) ;;;
-          let old := lim s in
           set_limit (Some n) ;;;
           (if k && mode_eqb (cmd c) Cer then cerr else ret tt) ;;;
           let ct := if k then CCons (mkCons Definite (cmd c)) else CPrim (cmd c) in
@@ -119,8 +119,8 @@ Fixpoint skip_unwind (fuel : nat) (st : stack) : M (option stack) :=
     match st with
     | [] => ret None
     | top :: st' =>
-        s <- get ;;
-        match lim s with
+        li <- get_lim ;;
+        match li with
         | Some 0 =>
             match top with
             | Some l => set_limit l ;;; skip_unwind f st'
@@ -170,8 +170,8 @@ Fixpoint skip_loop (fuel : nat) (c : cons) (flt_ : filter) (st : stack) (tr : tr
         | Definite_ n =>
             if mode_eqb (cmd c) Cer then cerr else
             if negb (flt_ t k depth) then cerr else
-            s <- get ;;
-            match lim s with
+            ol <- get_lim ;;
+            match ol with
             | Some li =>
                 if li <? n then cerr else
                 set_limit (Some n) ;;;
